@@ -282,6 +282,48 @@ PairChecks(ev, t1) ==
        /\ Chk("C19", "update.method", kind = "c19u" => TablesEqual(t0, t1, NineParams), ev, "U")
        /\ Mark("C19", kind \in {"c19", "c19o", "c19u"} /\ ev.ch # <<>>, ev)
 
+
+(***************************** reduced sweeps ******************************)
+\* C03: get_icao(frame(v)) XOR v over all v (step k) in run-length form.  For AP formats the XOR is the
+\* CRC of the data bits (the syndrome of the base frame with a zero AP field) except at the one v that
+\* yields address 0 (dropped, logged -1); for AA formats it is 0 except at v = 0.
+ZeroField(f, first) == [i \in 1..Len(f) |-> IF i >= first /\ i < first + 6 THEN 0 ELSE f[i]]
+IcaoSweepStep(ev) ==
+  LET f    == ev.nib
+      ap   == ev.field = "ap"
+      s    == IF ap THEN Syndrome(ZeroField(f, Len(f) - 5)) ELSE 0
+      zat  == s                                   \* the v giving address 0
+      k    == ev.step
+      runs == ev.runs
+      n    == Len(runs)
+      last == ((16777215) \div k) * k
+      ok   == /\ n = ev.nruns /\ n >= 1 /\ n <= 3
+              /\ runs[1][1] = 0 /\ runs[n][2] = last
+              /\ \A j \in 1..(n - 1) : runs[j + 1][1] = runs[j][2] + k
+              /\ \A j \in 1..n : IF runs[j][3] = -1 THEN runs[j][1] = zat /\ runs[j][2] = zat
+                                  ELSE runs[j][3] = s /\ ~(runs[j][1] <= zat /\ zat <= runs[j][2] /\ zat % k = 0)
+  IN  /\ Chk("C03", "address.sweep", ok, ev, ev.field)
+      /\ Mark("C03", LenAgrees(f) /\ DFof(f) \in NineDF, ev)
+
+\* C04: accepted corrupted variants of a valid squitter (burst patterns); every accepted one must pass parity
+FlipBits(f, start, len, pat) ==
+  [i \in 1..Len(f) |->
+     LET m == 8 * ((IF 4*i - 3 >= start /\ 4*i - 3 < start + len THEN (pat \div Pow2(len - 1 - (4*i - 3 - start))) % 2 ELSE 0))
+            + 4 * ((IF 4*i - 2 >= start /\ 4*i - 2 < start + len THEN (pat \div Pow2(len - 1 - (4*i - 2 - start))) % 2 ELSE 0))
+            + 2 * ((IF 4*i - 1 >= start /\ 4*i - 1 < start + len THEN (pat \div Pow2(len - 1 - (4*i - 1 - start))) % 2 ELSE 0))
+            +     ((IF 4*i     >= start /\ 4*i     < start + len THEN (pat \div Pow2(len - 1 - (4*i     - start))) % 2 ELSE 0))
+     IN XorI(f[i], m)]
+BurstStep(ev) ==
+  LET f == ev.nib
+      base == LenAgrees(f) /\ DFof(f) \in {11, 17, 18} /\ ParityOK(f)
+      listed == Len(ev.acc)
+  IN  /\ Chk("C04", "burst.accepted", base => \A j \in 1..listed :
+                 ParityOK(FlipBits(f, ev.acc[j].start, ev.acc[j].len, ev.acc[j].pat)), ev,
+             IF DFof(f) = 11 THEN "df11" ELSE "df17")
+      /\ Chk("C04", "burst.count", base => (ev.accepted = listed \/ listed >= 200), ev, "unlisted")
+      /\ Chk("C01", "burst.panic", ev.panics = 0, ev, "get_message")
+      /\ Mark("C04", base /\ ev.tried > 0, ev)
+
 (***************************** events **************************************)
 RunStep(ev) ==
   LET s    == ev.slot
@@ -348,6 +390,8 @@ Step(ev) ==
   ELSE IF ev.e = "tick" THEN TickStep(ev)
   ELSE IF ev.e = "save" THEN SaveStep(ev)
   ELSE IF ev.e = "restore" THEN RestoreStep(ev)
+  ELSE IF ev.e = "icaosweep" THEN (IF IcaoSweepStep(ev) THEN st ELSE st)
+  ELSE IF ev.e = "burst" THEN (IF BurstStep(ev) THEN st ELSE st)
   ELSE st
 
 Init == l = 1 /\ st = St0
